@@ -72,6 +72,10 @@ def gen_interval(rng, nominal=0.35):
     d = h = mi = s = 0
     if unit == "d":
         d = rng.choice([1, 1, 2, 7, 10, 30, 31, 365, 366])
+        if rng.random() < 0.12:
+            # intervals of a century and more (a 400-year cycle is 146097 days in the Gregorian calendar
+            # only: 144000 / 146000 / 146400 in the fixed-length ones)
+            d = rng.choice([36500, 36525, 40000, 144000, 146000, 146097, 146400, 150000])
     elif unit == "h":
         h = rng.choice([1, 6, 12, 23, 24, 25, 48])
     elif unit == "m":
@@ -108,6 +112,8 @@ def gen_rec(rng, m, fmt=None, bounded=None, nominal=0.35, max_reps=40):
     d = gen_interval(rng, nominal if fmt != 1 else 0)
     if rng.random() < 0.04:
         d = ("U", 0, 0, 0, 0, 0, 0)
+    if d[0] == "U" and d[3] >= 36500 and reps is not None:
+        reps = min(reps, rng.choice([2, 3, 5, 6]))
     if fmt == 1:
         secs = T.dur_seconds(d) if d[0] == "U" else d[1] * 7 * 86400
         tzh, tzm = gens.offset(rng) if rng.random() < 0.5 else (anchor[7], anchor[8])
@@ -116,6 +122,18 @@ def gen_rec(rng, m, fmt=None, bounded=None, nominal=0.35, max_reps=40):
     if fmt == 3:
         return (reps, anchor, d, None), dict(fmt=3, anchor=anchor, interval=d, reps=reps)
     return (reps, None, d, anchor), dict(fmt=4, anchor=anchor, interval=d, reps=reps)
+
+
+def respell_rec(rng, m, rec, info):
+    """The same recurrence with its anchor written differently (same instant, another offset and possibly
+    another representation): (rec, info).  For a month/year interval this legitimately denotes another
+    series (nominal arithmetic follows the local date) - the oracles work from the new anchor."""
+    reps, start, dur, end = rec
+    anchor = T.respell(rng, m, info["anchor"])
+    info = dict(info, anchor=anchor)
+    if info["fmt"] == 4:
+        return (reps, None, dur, anchor), info
+    return (reps, anchor, dur, end), info
 
 
 def gen_sticky_rec(rng, m):
